@@ -403,9 +403,9 @@ pub fn plain_name(quoted: &str) -> String {
 /// Redirect fd 1 to a file while `f` runs; returns what was written there.
 pub fn capture_stdout<T>(f: impl FnOnce() -> T) -> (T, Vec<u8>) {
     let _ = std::io::stdout().flush();
-    let path = "/verif/work/tmp/stdout-capture";
-    let _ = std::fs::create_dir_all("/verif/work/tmp");
-    let path = format!("{}-{}", path, std::process::id());
+    let base = std::env::var("N2V_TMP").unwrap_or_else(|_| "/verif/work/tmp".into());
+    let _ = std::fs::create_dir_all(&base);
+    let path = format!("{}/stdout-capture-{}", base, std::process::id());
     let file = std::fs::File::create(&path).unwrap();
     use std::os::fd::AsRawFd;
     let saved = unsafe { libc::dup(1) };
